@@ -15,7 +15,8 @@ From Anthem Require Import Base.ISet Syntax.Fol Syntax.Asp Sem.Domain Sem.Sat Se
   Model.Completion Model.StrategyCls Model.ExternalFull
   Proofs.SemBase Proofs.DecomposeOk Proofs.StrongOk Proofs.ExternalOk Proofs.AssemblyOk Proofs.RenameOk
   Proofs.C19Ext Proofs.C02Ok Proofs.FagesBridge Proofs.PlaceholderOk Proofs.C02Full Proofs.TightnessOk Proofs.PrivateUnique
-  Proofs.CompletionOk Proofs.HeadPred Proofs.HeadPredPipeline Proofs.C02Priv Proofs.C02Behaviour Proofs.C02Complete Proofs.C02Witness.
+  Proofs.CompletionOk Proofs.HeadPred Proofs.HeadPredPipeline Proofs.C02Priv Proofs.C02Behaviour Proofs.C02Complete Proofs.C02Witness
+  Proofs.MissingOutputs.
 Open Scope string_scope.
 Open Scope list_scope.
 
@@ -30,18 +31,24 @@ Open Scope list_scope.
                                         (input_facts (restrict (ext_voc t P) M) (task_inputs t))
         "on P's and the public vocabulary M is a stable model of P plus M's input facts, placeholders
          read by FI" - in particular an output predicate that does not occur in P is empty in M
-   outputs_occur_in t P    every output predicate declared in the user guide occurs in P
-   outputs_occur t         ... in the specification program and in the program (decidable: outputs_occurb)
+   outputs_occur t         every output predicate declared in the user guide occurs in the specification
+                           program and in the program (decidable: outputs_occurb) - NO LONGER a premise
    reindex m M             M read through the renaming of private predicates (p |-> p_p)
 
    WHAT IS PROVED, AND WHAT IS NOT (audit A1, A3, A4).  The task-level theorems below are for
-   program-vs-program tasks without proof outline, both programs tight, under three class
+   program-vs-program tasks without proof outline, both programs tight, under two class
    exclusions: (i) the task's own validated task has no symbol equal to a 0-ary predicate
    (otherwise rename_conflicting_symbols acts and the symbol_order chain is false for the
-   constants: finding F8c, Properties/C12.v); (ii) outputs_occur t (otherwise the side that lacks
-   an output predicate has no completed definition for it and a forward-only / backward-only
-   verification succeeds although the programs differ: finding F17, C02_missing_output_refuted);
-   (iii) the private renaming enters as `reindex` (faithful under no_rename_clash; F9).
+   constants: finding F8c, Properties/C12.v); (ii) the private renaming enters as `reindex`
+   (faithful under no_rename_clash; F9).
+   Finding F17 (audit A4) is REPAIRED in /repo (<COMMIT-F17>): a declared output predicate that does not
+   occur in a program now receives the empty completed definition `forall X (p(X) <-> #false)` on
+   that side (Model/External.v: missing_output_definitions), which says exactly what external
+   stability over the public vocabulary says about it (C02_missing_output_empty,
+   C02_empty_definition_meaning).  The former premise `outputs_occur t` of the theorems below is
+   gone; the layer-(c) theorems take `c_io_disjoint t = true` instead (input and output declarations
+   are disjoint - an applicability condition anthem enforces: InputOutputPredicatesOverlap), which
+   the task-level theorems derive from acceptance.  C02_missing_output_regression keeps the witness.
    The direction proved without hypothesis on the interpretation is COUNTERMODEL SOUNDNESS
    (C02_countermodel_sound: refutes => behavioural difference).  The converse over the public part
    only is C02_countermodel_complete (see there for what it assumes). *)
@@ -76,7 +83,7 @@ Theorem C02_translate_meaning :
   forall (fuel : nat) (t : ext_task) (P : program) (G th : theory),
     is_tight P = true ->
     (forall r h, In r P -> head_pred (rhead r) = Some h -> ~ In h (task_inputs t)) ->
-    outputs_occur_in t P ->
+    c_io_disjoint t = true ->
     tau_star P = Some G ->
     theory_translate tau_star_total completion (simp_classic_total fuel) t (task_placeholders t) P = Some th ->
     forall (FI : fint) (M : pint), tvalid FI M th <-> ext_stable_full t FI M P.
@@ -111,7 +118,6 @@ Theorem C02_modulo_private_uniqueness :
     is_tight L = true -> is_tight (et_program t) = true ->
     task_left tau_star_total completion (simp_classic_total fuel) t L = Some lft ->
     task_right tau_star_total completion (simp_classic_total fuel) t = Some rgt ->
-    outputs_occur t ->
     (forall vt, task_validated tau_star_total completion (simp_classic_total fuel) t = Some vt -> validated_no_clash vt) ->
     forall (FI : fint) (M : pint),
       tvalid FI M (map (fun a => rp_formula (task_placeholders t) (an_formula a)) (filter is_assumption (ug_formulas (et_user_guide t)))) ->
@@ -240,7 +246,7 @@ Theorem C02_external_stable_public_part :
   forall (fuel : nat) (t : ext_task) (P : program) (G th : theory) (FI : fint) (M : pint),
     is_tight P = true ->
     (forall r h, In r P -> head_pred (rhead r) = Some h -> ~ In h (task_inputs t)) ->
-    outputs_occur_in t P ->
+    c_io_disjoint t = true ->
     TauStar.tau_star P = Some G ->
     theory_translate tau_star_total completion (simp_classic_total fuel) t (task_placeholders t) P = Some th ->
     has_private_recursion P (private_predicates (ug_public_predicates (et_user_guide t)) (program_preds P)) = false ->
@@ -259,7 +265,6 @@ Theorem C02_behaviour :
     is_tight L = true -> is_tight (et_program t) = true ->
     task_left tau_star_total completion (simp_classic_total fuel) t L = Some lft ->
     task_right tau_star_total completion (simp_classic_total fuel) t = Some rgt ->
-    outputs_occur t ->
     (forall vt, task_validated tau_star_total completion (simp_classic_total fuel) t = Some vt -> validated_no_clash vt) ->
     forall (FI : fint) (M : pint),
       tvalid FI M (map (fun a => rp_formula (task_placeholders t) (an_formula a)) (filter is_assumption (ug_formulas (et_user_guide t)))) ->
@@ -284,7 +289,6 @@ Theorem C02_countermodel_sound :
     is_tight L = true -> is_tight (et_program t) = true ->
     task_left tau_star_total completion (simp_classic_total fuel) t L = Some lft ->
     task_right tau_star_total completion (simp_classic_total fuel) t = Some rgt ->
-    outputs_occur t ->
     (forall vt, task_validated tau_star_total completion (simp_classic_total fuel) t = Some vt -> validated_no_clash vt) ->
     forall (FI : fint) (M : pint),
       refutes_some FI M pbs ->
@@ -317,7 +321,6 @@ Theorem C02_countermodel_complete :
     is_tight L = true -> is_tight (et_program t) = true ->
     task_left tau_star_total completion (simp_classic_total fuel) t L = Some lft ->
     task_right tau_star_total completion (simp_classic_total fuel) t = Some rgt ->
-    outputs_occur t ->
     (forall vt, task_validated tau_star_total completion (simp_classic_total fuel) t = Some vt -> validated_no_clash vt) ->
     rename_faithful t L -> ug_over_inputs t ->
     forall (FI : fint) (T : pint),
@@ -338,7 +341,6 @@ Theorem C02_external_equivalence :
     is_tight L = true -> is_tight (et_program t) = true ->
     task_left tau_star_total completion (simp_classic_total fuel) t L = Some lft ->
     task_right tau_star_total completion (simp_classic_total fuel) t = Some rgt ->
-    outputs_occur t ->
     (forall vt, task_validated tau_star_total completion (simp_classic_total fuel) t = Some vt -> validated_no_clash vt) ->
     rename_faithful t L -> ug_over_inputs t ->
     forall FI : fint,
@@ -368,7 +370,6 @@ Example C02_external_equivalence_nonvacuous : forall FI : fint,
   (is_tight L8 = true /\ is_tight (et_program t8) = true) /\
   task_left tau_star_total completion (simp_classic_total full_fuel) t8 L8 = Some lft8 /\
   task_right tau_star_total completion (simp_classic_total full_fuel) t8 = Some rgt8 /\
-  outputs_occur t8 /\
   (forall vt, task_validated tau_star_total completion (simp_classic_total full_fuel) t8 = Some vt -> validated_no_clash vt) /\
   rename_faithful t8 L8 /\ ug_over_inputs t8 /\
   refutes_some FI M8 pbs8 /\
@@ -376,12 +377,12 @@ Example C02_external_equivalence_nonvacuous : forall FI : fint,
 Proof.
   intros FI.
   split; [reflexivity|]. split; [reflexivity|]. split; [exact t8_accepted|]. split; [exact t8_tight|].
-  split; [exact t8_left|]. split; [exact t8_right|]. split; [exact t8_outputs_occur|]. split; [exact t8_no_clash|].
+  split; [exact t8_left|]. split; [exact t8_right|]. split; [exact t8_no_clash|].
   split; [exact t8_rename_faithful|]. split; [exact t8_ug_over_inputs|].
   split; [exact (t8_refuted FI)|exact (t8_complete FI)].
 Qed.
 
-(* ---------------- the class excluded by [outputs_occur] (audit A4, finding F17) ---------------- *)
+(* ---------------- declared output predicates missing from a program (audit A4, finding F17: repaired) ---------------- *)
 (* an external stable model is empty on every public predicate that is neither an input nor the head
    of a rule - in particular on an output predicate that does not occur in the program *)
 Theorem C02_missing_output_empty :
@@ -397,35 +398,62 @@ Theorem C02_outputs_occur_decidable : forall t, outputs_occurb t = true <-> outp
 Proof. exact outputs_occurb_spec. Qed.
 Print Assumptions C02_outputs_occur_decidable.
 
-(* Outside the class the statement of C02_behaviour is FALSE for the model (and for anthem: same
-   problems on the CLI).  t17 =  specification  out :- in.  out2 :- in.   program  out :- in.
+(* the added formulas say exactly that: the empty completed definition of q is valid in M iff M is
+   empty on q ... *)
+Theorem C02_empty_definition_meaning :
+  forall (FI : fint) (M : pint) (q : pred),
+    cvalid FI M (empty_definition q) <-> forall d, List.length d = parity q -> ~ M (psym q) d.
+Proof. exact empty_definition_valid. Qed.
+Print Assumptions C02_empty_definition_meaning.
+
+(* ... and they are added for exactly the declared output predicates that do not occur in the
+   program (the code tests the completed theory; for an accepted task that is the same) *)
+Theorem C02_missing_outputs_are_the_program's :
+  forall (t : ext_task) (P : program) (G D : theory) (q : pred),
+    c_io_disjoint t = true -> tau_star P = Some G ->
+    completion (rp_theory (task_placeholders t) G) (task_inputs t) = Some D ->
+    In q (ug_output_predicates (et_user_guide t)) ->
+    (In q (theory_predicates D) <-> In q (program_preds P)).
+Proof. exact output_in_completion_validated. Qed.
+Print Assumptions C02_missing_outputs_are_the_program's.
+
+(* Regression for finding F17.  t17 =  specification  out :- in.  out2 :- in.   program  out :- in.
    input: in/0.  output: out/0.  output: out2/0.   --direction forward.
-   All other premises of C02_behaviour hold, M17 = {in, out, out2} is an external stable model of
-   the specification program and NO interpretation with its public part is one of the program
-   (the program never produces out2) - a forward behavioural difference - and yet no
-   interpretation whatsoever refutes the (single) emitted problem: anthem reports the forward
-   claim as proved.  The program side has no completed definition for out2 because completion.rs
-   completes only predicates that occur in the theory. *)
-Theorem C02_missing_output_refuted : forall FI : fint,
+   The task is outside the former class (~ outputs_occur t17); M17 = {in, out, out2} is an external
+   stable model of the specification program and NO interpretation with its public part is one of
+   the program (the program never produces out2) - a forward behavioural difference.  Before
+   /repo <COMMIT-F17> the single emitted problem was irrefutable (the theorem then called
+   C02_missing_output_refuted showed `forall FI' M', ~ refutes_some FI' M' pbs17`): anthem reported
+   the false forward claim as proved.  Now the program side carries `out2 <-> #false`, a second
+   problem has it as conjecture, M17 refutes it, and - no class premise left - the behavioural
+   difference follows from the refutation THROUGH C02_countermodel_sound. *)
+Example C02_missing_output_regression : forall FI : fint,
   et_specification t17 = inl L17 /\ et_proof_outline t17 = [] /\
-  (external_decompose_full full_fuel t17 = XOk [] pbs17 /\ List.length pbs17 = 1) /\
+  (external_decompose_full full_fuel t17 = XOk [] pbs17 /\ List.length pbs17 = 2) /\
   (is_tight L17 = true /\ is_tight (et_program t17) = true) /\
   task_left tau_star_total completion (simp_classic_total full_fuel) t17 L17 = Some lft17 /\
   task_right tau_star_total completion (simp_classic_total full_fuel) t17 = Some rgt17 /\
   (forall vt, task_validated tau_star_total completion (simp_classic_total full_fuel) t17 = Some vt -> validated_no_clash vt) /\
   ~ outputs_occur t17 /\
+  In (FBin CIff (FAtomic (AAtom "out2" [])) (FAtomic AFalse)) (map an_formula rgt17) /\
   dir_forward (et_direction t17) = true /\
   ext_stable_full t17 FI M17 L17 /\
   (~ exists N, pub_agree t17 N (reindex (task_mapping t17) M17) /\ ext_stable_full t17 FI N (et_program t17)) /\
-  (forall (FI' : fint) (M' : pint), ~ refutes_some FI' M' pbs17).
+  refutes_some FI M17 pbs17 /\
+  ((dir_forward (et_direction t17) = true /\
+    ext_stable_full t17 FI M17 L17 /\
+    ~ exists N, pub_agree t17 N (reindex (task_mapping t17) M17) /\ ext_stable_full t17 FI N (et_program t17)) \/
+   (dir_backward (et_direction t17) = true /\
+    ext_stable_full t17 FI (reindex (task_mapping t17) M17) (et_program t17) /\
+    ~ exists N, pub_agree t17 N M17 /\ ext_stable_full t17 FI N L17)).
 Proof.
   intros FI.
   split; [reflexivity|]. split; [reflexivity|]. split; [exact t17_accepted|]. split; [exact t17_tight|].
   split; [exact t17_left|]. split; [exact t17_right|]. split; [exact t17_no_clash|].
-  split; [exact t17_outputs_missing|]. split; [reflexivity|]. split; [exact (t17_left_stable FI)|].
-  split; [exact (t17_right_cannot FI)|exact t17_irrefutable].
+  split; [exact t17_outputs_missing|]. split; [exact t17_right_has_empty_definition|].
+  split; [reflexivity|]. split; [exact (t17_left_stable FI)|].
+  split; [exact (t17_right_cannot FI)|]. split; [exact (t17_refuted FI)|exact (t17_behaviour_rhs FI)].
 Qed.
-Print Assumptions C02_missing_output_refuted.
 
 (* ---------------- non-vacuity of the headline theorems (audit A1) ----------------
    Every premise of C02_modulo_private_uniqueness / C02_behaviour / C02_countermodel_sound is
@@ -440,7 +468,6 @@ Example C02_modulo_private_uniqueness_nonvacuous : forall FI : fint,
   (is_tight L6 = true /\ is_tight (et_program t6) = true) /\
   task_left tau_star_total completion (simp_classic_total full_fuel) t6 L6 = Some lft6 /\
   task_right tau_star_total completion (simp_classic_total full_fuel) t6 = Some rgt6 /\
-  outputs_occur t6 /\
   (forall vt, task_validated tau_star_total completion (simp_classic_total full_fuel) t6 = Some vt -> validated_no_clash vt) /\
   tvalid FI M6 (map (fun a => rp_formula (task_placeholders t6) (an_formula a)) (filter is_assumption (ug_formulas (et_user_guide t6)))) /\
   tvalid FI M6 (assumptions_of lft6) /\ tvalid FI M6 (assumptions_of rgt6) /\
@@ -452,7 +479,7 @@ Example C02_modulo_private_uniqueness_nonvacuous : forall FI : fint,
 Proof.
   intros FI.
   split; [reflexivity|]. split; [reflexivity|]. split; [exact t6_accepted|]. split; [exact t6_tight|].
-  split; [exact t6_left|]. split; [exact t6_right|]. split; [exact t6_outputs_occur|]. split; [exact t6_no_clash|].
+  split; [exact t6_left|]. split; [exact t6_right|]. split; [exact t6_no_clash|].
   split; [exact (t6_ug FI M6)|]. split; [exact (t6_assumptions_left FI)|]. split; [exact (t6_assumptions_right FI M6)|].
   split; [exact (t6_refuted FI)|exact (t6_full_rhs FI)].
 Qed.
@@ -463,7 +490,6 @@ Example C02_behaviour_nonvacuous : forall FI : fint,
   (is_tight L6 = true /\ is_tight (et_program t6) = true) /\
   task_left tau_star_total completion (simp_classic_total full_fuel) t6 L6 = Some lft6 /\
   task_right tau_star_total completion (simp_classic_total full_fuel) t6 = Some rgt6 /\
-  outputs_occur t6 /\
   (forall vt, task_validated tau_star_total completion (simp_classic_total full_fuel) t6 = Some vt -> validated_no_clash vt) /\
   tvalid FI M6 (map (fun a => rp_formula (task_placeholders t6) (an_formula a)) (filter is_assumption (ug_formulas (et_user_guide t6)))) /\
   tvalid FI M6 (assumptions_of lft6) /\ tvalid FI M6 (assumptions_of rgt6) /\
@@ -477,7 +503,7 @@ Example C02_behaviour_nonvacuous : forall FI : fint,
 Proof.
   intros FI.
   split; [reflexivity|]. split; [reflexivity|]. split; [exact t6_accepted|]. split; [exact t6_tight|].
-  split; [exact t6_left|]. split; [exact t6_right|]. split; [exact t6_outputs_occur|]. split; [exact t6_no_clash|].
+  split; [exact t6_left|]. split; [exact t6_right|]. split; [exact t6_no_clash|].
   split; [exact (t6_ug FI M6)|]. split; [exact (t6_assumptions_left FI)|]. split; [exact (t6_assumptions_right FI M6)|].
   split; [exact (t6_refuted FI)|exact (t6_behaviour_rhs FI)].
 Qed.
@@ -489,13 +515,12 @@ Example C02_countermodel_sound_nonvacuous : forall FI : fint,
   (is_tight L6 = true /\ is_tight (et_program t6) = true) /\
   task_left tau_star_total completion (simp_classic_total full_fuel) t6 L6 = Some lft6 /\
   task_right tau_star_total completion (simp_classic_total full_fuel) t6 = Some rgt6 /\
-  outputs_occur t6 /\
   (forall vt, task_validated tau_star_total completion (simp_classic_total full_fuel) t6 = Some vt -> validated_no_clash vt) /\
   refutes_some FI M6 pbs6.
 Proof.
   intros FI.
   split; [reflexivity|]. split; [reflexivity|]. split; [exact t6_accepted|]. split; [exact t6_tight|].
-  split; [exact t6_left|]. split; [exact t6_right|]. split; [exact t6_outputs_occur|]. split; [exact t6_no_clash|].
+  split; [exact t6_left|]. split; [exact t6_right|]. split; [exact t6_no_clash|].
   exact (t6_refuted FI).
 Qed.
 
@@ -523,8 +548,8 @@ Proof.
   split; [reflexivity|]. split; [reflexivity|]. split; vm_compute; reflexivity.
 Qed.
 
-(* the clash premise and outputs_occur hold for t5 as well (the premise the audit showed to be
-   unsatisfiable in its earlier `forall uga` form) *)
+(* the clash premise holds for t5 as well (the premise the audit showed to be unsatisfiable in its
+   earlier `forall uga` form); t5 is inside the former class outputs_occur *)
 Example C02_t5_premises :
   (forall vt, task_validated tau_star_total completion (simp_classic_total full_fuel) t5 = Some vt -> validated_no_clash vt) /\
   outputs_occur t5.
